@@ -24,6 +24,8 @@ CONSTANTS
     Expiry,        \* TRUE: the engine has no native TTL, expiry happens inside compaction
     CompactAfter,  \* compaction requests are only issued after this many requests (generator bias; 0 in MC configs)
     DelFaultKinds, \* {} or SUBSET {"err", "cas", "die"}: a compaction may have one deletion fail / may be interrupted
+    StreamBatch,   \* key-values per batch of a streamed range (300 in the code; 1 here makes every position a batch border)
+    StreamRestarts,\* FALSE (the code since D25): a worker whose iterator failed does not start over once a batch has been sent
     GenHist
 
 VARIABLES idx, ver,     \* stored records
@@ -205,6 +207,16 @@ StreamInvariant ==
         \A b1 \in Positions :
             LET a == AdjustBorder(b1) IN
             StreamRun(Recs, <<KMin, 0>>, a, R) \o StreamRun(Recs, a, <<KMax + 1, 0>>, R) = whole
+
+\* ... also when the iterator of a worker fails once, anywhere, with batches of StreamBatch key-values: a stream that ends
+\* without error carries every key exactly once; one that ends with an error carries no key twice
+StreamFaultInvariant ==
+    \A R \in Revs : R >= floor =>
+        LET whole == WorkerRun(Recs, R, 0, FALSE, 0, {}).out IN
+        \A f \in 0..Len(Recs) :
+            LET s == StreamWithFault(Recs, R, StreamBatch, f, StreamRestarts) IN
+            /\ NoDup(s.out)
+            /\ (~s.err => s.out = whole)
 
 \* ---- C07: compaction at R, interrupted after any number of deletions and with any single
 \* deletion failing (certain error => key skipped; failed compare => only that deletion),
